@@ -361,6 +361,30 @@ func (b *Backend) succeed(p *Payment) {
 
 func (b *Backend) ConnectionStatus() error { return nil }
 
+// CreateInvoiceMsat is what a node front end (harness/clnfacade) calls: the amount exactly as the adapter asked for.
+func (b *Backend) CreateInvoiceMsat(amountMsat uint64) (lightning.Invoice, error) {
+	c, err := b.enter(Call{Method: "CreateInvoice", AmountMsat: amountMsat})
+	if err != nil {
+		return lightning.Invoice{}, err
+	}
+	b.Net.mu.Lock()
+	defer b.Net.mu.Unlock()
+	if b.CreateInvoiceErr {
+		b.setAnswer(c.Seq, "error", true)
+		return lightning.Invoice{}, errors.New("lnmodel: MARKER-LN-INTERNAL create invoice failed")
+	}
+	if amountMsat/1000 > 1<<40 || amountMsat == 0 {
+		b.setAnswer(c.Seq, "error", true)
+		return lightning.Invoice{}, errors.New("lnmodel: amount not acceptable for an invoice")
+	}
+	i, err := b.Net.newInvoice(amountMsat, b)
+	if err != nil {
+		b.setAnswer(c.Seq, "error", true)
+		return lightning.Invoice{}, err
+	}
+	return lightning.Invoice{PaymentRequest: i.Request, PaymentHash: i.Hash, Amount: amountMsat / 1000, Expiry: 3600}, nil
+}
+
 func (b *Backend) CreateInvoice(amount uint64) (lightning.Invoice, error) {
 	c, err := b.enter(Call{Method: "CreateInvoice", AmountMsat: amount * 1000})
 	if err != nil {
